@@ -17,6 +17,8 @@ import (
 func init() {
 	verifRegister("verifC12Sequence", verifC12Sequence)
 	verifRegister("verifC12DualStack", verifC12DualStack)
+	verifRegister("verifC12LastWriter", verifC12LastWriter)
+	verifRegister("verifC12ShortBuffer", verifC12ShortBuffer)
 	verifRegister("verifC13Refcount", verifC13Refcount)
 	verifRegister("verifC13AbortProtocol", verifC13AbortProtocol)
 }
@@ -484,6 +486,117 @@ func verifC12DualStack() {
 		verifAssert(len(verifQueueOf(c4)) == n4 && len(verifQueueOf(c6)) == n6, "removed-connections-receive-nothing(either-family)")
 		hNew, err := m.GetConn("u0", local6)
 		verifAssert(err == nil && verifUnderlying(hNew) != c6 && verifUnderlying(hNew) != c4, "GetConn-after-removal-returns-a-fresh-connection")
+	}
+	verifReach("done")
+}
+
+// Last writer wins, for every history of writes: two connections write to two
+// remote addresses in any order; afterwards a datagram from each address is
+// delivered to the connection that wrote to it LAST (and to no other), the
+// address table agrees, and removing that connection's ufrag unbinds the
+// address again.
+func verifC12LastWriter() {
+	m, sock := verifNewMux()
+	verifRunGoroutines()
+	hs := make([]net.PacketConn, 2)
+	cs := make([]*udpMuxedConn, 2)
+	for i := range hs {
+		h, err := m.GetConn(verifMuxUfrags[i], sock.local)
+		verifAssert(err == nil, "GetConn-ok")
+		hs[i], cs[i] = h, verifUnderlying(h)
+	}
+	addrs := verifMuxAddrs[:2]
+	last := []int{-1, -1}
+	nWrites := 3 + verifTier()
+	for k := 0; k < nWrites; k++ {
+		hi, ai := verifChoice(2), verifChoice(2)
+		_, err := hs[hi].WriteTo([]byte{byte(k), 1}, addrs[ai])
+		verifAssert(err == nil, "write-ok")
+		last[ai] = hi
+		// the table follows every write at once
+		verifAssert(m.addressMap[verifCanon(addrs[ai])] == cs[hi], "address-binding-follows-the-most-recent-writer")
+	}
+	for ai, a := range addrs {
+		n0, n1 := len(verifQueueOf(cs[0])), len(verifQueueOf(cs[1]))
+		payload := verifBytes(3)
+		sock.in <- verifInDatagram{data: payload, from: a}
+		verifRunGoroutines()
+		g0, g1 := len(verifQueueOf(cs[0]))-n0, len(verifQueueOf(cs[1]))-n1
+		switch last[ai] {
+		case -1:
+			verifReach("never-written")
+			verifAssert(g0 == 0 && g1 == 0, "datagram-from-an-unbound-address-is-dropped")
+		case 0:
+			verifAssert(g0 == 1 && g1 == 0, "datagram-goes-to-the-last-writer-only")
+		default:
+			verifReach("taken-over-or-kept")
+			verifAssert(g0 == 0 && g1 == 1, "datagram-goes-to-the-last-writer-only")
+		}
+	}
+	// removing the last writer of address 0 unbinds it (nothing falls back to the earlier writer)
+	if lw := last[0]; lw >= 0 {
+		m.RemoveConnByUfrag(verifMuxUfrags[lw])
+		_, bound := m.addressMap[verifCanon(addrs[0])]
+		verifAssert(!bound, "removing-the-last-writer-unbinds-the-address")
+		n0, n1 := len(verifQueueOf(cs[0])), len(verifQueueOf(cs[1]))
+		sock.in <- verifInDatagram{data: []byte{9, 9, 9}, from: addrs[0]}
+		verifRunGoroutines()
+		verifAssert(len(verifQueueOf(cs[0])) == n0 && len(verifQueueOf(cs[1])) == n1, "after-removal-the-address-reaches-nobody")
+	}
+	verifReach("done")
+}
+
+// Per-connection FIFO with readers whose buffer may be too small: three
+// datagrams arrive; reads with a large or a too-small buffer in any order.
+// Every delivered datagram is complete and unmodified, no datagram is
+// delivered twice, and the delivered ones appear in arrival order (a datagram
+// that did not fit is reported as a short buffer and never comes back later).
+func verifC12ShortBuffer() {
+	m, sock := verifNewMux()
+	verifRunGoroutines()
+	h, err := m.GetConn("u0", sock.local)
+	verifAssert(err == nil, "GetConn-ok")
+	c := verifUnderlying(h)
+	peer := verifMuxAddrs[0]
+	_, err = h.WriteTo([]byte{0}, peer) // bind the peer's address to this connection
+	verifAssert(err == nil, "write-ok")
+	var sentIn [][]byte
+	for k := 1; k <= 3; k++ {
+		d := append([]byte{byte(k)}, verifBytes(2+verifChoice(2))...) // 3 or 4 bytes, tagged by arrival order
+		sentIn = append(sentIn, d)
+		sock.in <- verifInDatagram{data: d, from: peer}
+		verifRunGoroutines()
+	}
+	verifAssert(len(verifQueueOf(c)) == 3, "three-datagrams-queued")
+	lastTag := 0
+	delivered := 0
+	for r := 0; r < 6; r++ {
+		if len(verifQueueOf(c)) == 0 {
+			break
+		}
+		size := 8
+		if r < 3+verifTier() { // the first reads use either buffer, the rest drain with a large one
+			size = []int{2, 8}[verifChoice(2)]
+		}
+		buf := make([]byte, size)
+		n, from, rerr := h.ReadFrom(buf)
+		if rerr != nil {
+			verifReach("short-buffer")
+			verifAssert(rerr == io.ErrShortBuffer && n == 0 && size == 2, "only-a-too-small-buffer-fails-a-read")
+			continue
+		}
+		verifAssert(size == 8 && n >= 3 && from != nil && from.String() == peer.String(), "delivered-with-the-peer's-address")
+		tag := int(buf[0])
+		verifAssert(tag > lastTag && tag <= 3, "delivered-datagrams-keep-their-arrival-order(nothing-comes-back-later)")
+		if tag >= 1 && tag <= 3 {
+			verifAssert(verifBytesEq(buf[:n], sentIn[tag-1]), "delivered-datagram-complete-and-unmodified")
+		}
+		lastTag = tag
+		delivered++
+	}
+	verifAssert(len(verifQueueOf(c)) == 0, "every-datagram-was-delivered-or-reported-short-exactly-once")
+	if delivered > 0 {
+		verifReach("delivered")
 	}
 	verifReach("done")
 }
